@@ -91,7 +91,7 @@ let rec opd_of = function
 let rec expr_of = function
   | L [Atom "lit"; Atom "0"] -> BLit false
   | L [Atom "lit"; Atom "1"] -> BLit true
-  | L [Atom "bvar"; Atom j] -> BVar (nat_of_int (int_of_string j))
+  | L [Atom "bvar"; Atom j] -> BVar (BLocal (nat_of_int (int_of_string j)))
   | L [Atom "cmp"; Atom op; a; b] -> BCmp (op_of op, opd_of a, opd_of b)
   | L [Atom "not"; e] -> BNot (expr_of e)
   | L [Atom "and"; a; b] -> BAnd (expr_of a, expr_of b)
